@@ -319,6 +319,7 @@ class Call2Mixin:
     elif isinstance(v, VMap):
       o = VMap(v.has, v.val, v.ksort, v.vkind, v.none, v.stamp, v.clock, v.size)
       o.guard = None
+      o.is_counter = v.is_counter
       o.keys_seen = list(v.keys_seen)
     elif isinstance(v, VLock):
       o = VLock(v.name, v.reentrant, v.cond)
